@@ -30,12 +30,17 @@ Placements ==
    mainF : {<<>>, <<"A">>}, cliF : {<<>>, <<"A">>, <<"dsf", "A">>, <<"dsf", "dh", "dsf">>, <<"dh", "dsf", "dh">>}, hasCliF : BOOLEAN,
    envF : {<<"A">>}, envMode : {"none", "plus"}, childA : {<<>>, <<"dsf">>},
    flagsCli : {{}, {"dh"}}, flagsMain : {{}, {"dsf"}}, noGit : {TRUE}]
+  \cup   \* a built-in feature that contains another one (side-by-side -> line-numbers), with and without a gitconfig object
+  [cli : {FALSE}, gcp : {FALSE}, main : {FALSE}, custom : {{}}, mainF : {<<>>, <<"sbs">>},
+   cliF : {<<>>, <<"sbs">>, <<"ln">>, <<"A", "sbs">>}, hasCliF : BOOLEAN, envF : {<<"sbs">>}, envMode : {"none", "plain"},
+   childA : {<<>>, <<"sbs">>}, flagsCli : {{}, {"sbs"}}, flagsMain : {{}, {"sbs"}}, noGit : BOOLEAN]
 Sane(q) == (q.hasCliF <=> q.cliF # <<>>)
 Init == p \in {q \in Placements : Sane(q)} /\ done = FALSE
 Next == ~done /\ done' = TRUE /\ UNCHANGED p
 Spec == Init /\ [][Next]_vars
 Orders == IF SortedFlags THEN {SelectSeq(FlagOrder, LAMBDA f : f \in p.flagsMain)} ELSE SeqsOf(p.flagsMain)
 WithinDocumented == \A o \in Orders : ImplValue(p, o) \in Allowed(p)
+LnRight == \A o \in Orders : LnOK(p, ImplLn(p, o))
 Deterministic == \A o1, o2 \in Orders : ImplValue(p, o1) = ImplValue(p, o2)
 Replay == done \/ ~Emit \/ PrintT(<<"REPLAY", ToJson([p |-> [p EXCEPT !.custom = SetToSeq(@), !.flagsCli = SetToSeq(@), !.flagsMain = SetToSeq(@)],
                                                      allowed |-> SetToSeq(Allowed(p))])>>)
